@@ -771,6 +771,7 @@ func checkC05Ledger(c *Check, L *Loaded) {
 // was given up before (claimed temporary / fresh value). Returns problems; freeFirst demands a release of D before.
 func storeProtocol(in *Interp, isDest func(*IRVal) bool, temps map[string]bool, freeFirst bool) (inits int, bad []string) {
 	claimed := map[*IRVal]bool{}
+	moved := map[*IRVal]bool{} // sources whose loaded value was moved into the destination as its owner
 	operand := map[*IRVal]string{}
 	type initEv struct {
 		pos    string
@@ -799,6 +800,8 @@ func storeProtocol(in *Interp, isDest func(*IRVal) bool, temps map[string]bool, 
 					bad = append(bad, in.L.Pos(e.Pos)+": the destination is released twice")
 				}
 				everFreed, freedSinceInit = true, true
+			} else if ok && moved[v] {
+				bad = append(bad, in.L.Pos(e.Pos)+": the value that was moved into the destination is released afterwards: the destination keeps a released block (use after free, released again with the destination)")
 			}
 		case e.Kind == "deepCopy":
 			if d, ok := e.Data[0].(*IRVal); ok && isDest(d) {
@@ -825,6 +828,9 @@ func storeProtocol(in *Interp, isDest func(*IRVal) bool, temps map[string]bool, 
 				}
 			} else {
 				ev.owning = true // a fresh value built in place
+			}
+			if ev.owning {
+				moved[src] = true
 			}
 			seq = append(seq, ev)
 		}
